@@ -110,7 +110,8 @@ def cases(tier, seed, i, n):
                                 continue
                             yield dict(kind='fault', target=tn, proxy=pn, op=op, k=kk, fault=fault,
                                        seg='bytewise' if op == 'recv' else ('one', 'bytewise')[kk % 2])
-        for _ in range(100 if tier == 'quick' else 4000):
+        yield gen.mark('targets x proxy URL shapes x reply catalogue; every single cut of two replies; mapping table; fault at every proxy-phase socket call')
+        for _ in range(600 if tier == 'quick' else 300000):
             rn = rnd.choice(list(OK_REPLIES) + list(BAD_REPLIES))
             rep = OK_REPLIES.get(rn) or BAD_REPLIES.get(rn)
             yield dict(kind='proxy', target=rnd.choice(list(TARGETS)), proxy=rnd.choice(list(PROXY_URLS)), reply=rn,
